@@ -321,7 +321,7 @@ def fdt_retain_rule(ctx, r3, reach=None):
         cf = prog.funcs[clos[0]]
         ctx.analysed(cf.path)
         t = polarity.Table(cf, name_sign={"recv": r"FDTState::Receiving", "comp": r"FDTState::Complete", "err": r"FDTState::Error", "exp": r"FDTState::Expired"},
-                           name_bool={"has_timeout": r"object_timeout\) is Some$", "timed_out": r"FdtReceiver::is_timeout"})
+                           name_bool={"has_timeout": r"object_timeout\)? is Some$", "timed_out": r"FdtReceiver::is_timeout"})
         found = t.labels_found()
         if not ({"recv", "comp", "err", "exp"} & found):
             r3.violation(key, "the retain predicate of cleanup_fdt does not look at the instance's state (conditions: %s ; %s)" % (
